@@ -482,10 +482,12 @@ Definition doc_list_accepts (fs : list filter) (text : bytes) : bool :=
   match fs with [] => true | _ => existsb (fun f => doc_filter_accepts f text) fs end.
 Definition doc_selected (c : config) (t : bytes * bytes) : bool :=
   doc_list_accepts (c_gf c) (fst t) && doc_list_accepts (c_nf c) (snd t).
+(* help(): the randomization seed must be greater than 0 -- no configuration shuffles with seed 0 *)
+Definition seed_ok (c : config) : bool := negb (c_shuf c) || negb (c_seed c =? 0).
 Definition well_formed (o : obs) : bool :=
   match o with
   | ORejected h r p => (r =? 0) && printed_eqb p (if h then PHelp else PUsage)
-  | OAccepted c sel => list_eqb Bool.eqb sel (map (doc_selected c) probes)
+  | OAccepted c sel => list_eqb Bool.eqb sel (map (doc_selected c) probes) && seed_ok c
   | OUnknown => false
   end.
 Definition expected (tm : N) (opts : list doc_opt) : obs :=
